@@ -13,13 +13,24 @@ from harness.extract import nondet_seeding as x_seeding
 from harness.extract import nondet_output as x_output
 from harness.extract import nondet_loops as x_loops
 from harness.extract import sharedstate as x_shared  # C04's extractor, imported read-only
+from harness.extract import own_generator_state as x_own  # the decorator of the F-11 repair (shared with C04)
 from harness.lib import scen
 from harness.lib.core import REPO, SRC, VERIF, Ctx, Rng, lean_lock, run_driver
 from harness.rigs import envrig, xproc
 from harness.rigs import nondet_sites as sites
 
 MANIFEST = {
-    "text": "Lean 4 proof, FULL since the F-9 repair (frame timestamps and NTP reply times serialised with a constant width, generated ICMP "
+    "text": "F-11 REPAIRED (fix4-RNG: every environment runs __init__ / reset / step on its OWN saved state of random / numpy.random, decorator "
+            "`own_generator_state`): `nothing else consumes the global generators between two calls` is no longer a hypothesis - the code's "
+            "operations are modelled as ownedOpStep (restore own state, operate, save), runOwned_eq_runOps proves that a run with ANY foreign "
+            "draws anywhere in between IS the plain run of the environment's operations, hence C03_run_indep_of_env_and_foreign_activity / "
+            "C03_reseed_reproduces_and_foreign_activity (two processes, any valid environments, ARBITRARY DIFFERENT foreign activity: same "
+            "canonical trajectory); C03_foreign_draw_counterexample now speaks of the operations without the decorator. The four new "
+            "getstate / setstate sites of the inventory are discharged by a mechanical fact (stateAccess … inWrapper) + that lemma (kind "
+            "ownGeneratorState), the decorator's shape and placement are regenerated (Gen/OwnGeneratorState, C03_gen_own_generator_state); the "
+            "cross-process workers now differ also in what ELSE uses the process-wide generators between the operations (draws, re-seeding, a "
+            "second live environment of the same scenario). "
+            "Lean 4 proof, FULL since the F-9 repair (frame timestamps and NTP reply times serialised with a constant width, generated ICMP "
             "identifiers of five digits: C03_run_indep_of_env / C03_reseed_reproduces / C03_code_reseed_reproduces / C03_generators_after_reseed "
             "carry no hypothesis on the environments, only `g.FixedWidth` about the code's text-length function, tied to the source by "
             "C03_gen_fixed_width_readings and the site facts storedIn / boundedSecret; the `_agree` variants are the general lemmas; "
@@ -90,7 +101,7 @@ MODULES = ["PrimaiteModel.Props.C03", "PrimaiteModel.Props.C03Loops"]
 # theorem C03_discharge_counts)
 BASIS = {**{r: "mechanical" for r in ("fixedWidthReading", "fixedLenSecret", "clockNotRead", "seededRng", "seeding", "unseededByConfig",
                                                                      "offline", "setDeclCovered", "setEmpty", "setSingleton", "hashValueDiscarded", "setSorted",
-                                                                     "setToSet", "setNoEffect", "setLengthOnly", "setDictByKey")},
+                                                                     "setToSet", "setNoEffect", "setLengthOnly", "setDictByKey", "ownGeneratorState")},
          **{r: "trusted" for r in ("hashNotIterated", "setMembershipOnly", "setIntHash", "idTextEqOnly")}}
 EXE = "drv_c03"
 SKIP = {"bad_primaite_session", "no_nodes_links_agents_network", "eval_only_primaite_session", "multi_agent_session", "data_manipulation_marl"}
@@ -439,7 +450,10 @@ def variants(seeds: List[int]) -> List[Dict]:
     """The interpreters of a case: worker 0 starts fresh; the others have a PROCESS HISTORY (xproc: warm-ups played in the same
     interpreter before the case); logging fully on / fully off alternates."""
     hist = [[], [0], [1, 0], [1], [0, 1], [], [0]]
-    return [{"hashseed": hs, "loud": (i % 2 == 1), "warm": hist[i % len(hist)]} for i, hs in enumerate(seeds)]
+    # `foreign` (since the F-11 repair): what ELSE uses the process-wide generators between the environment's operations in that interpreter:
+    # 0 nothing (worker 0: the reference), 1 / 5 draws, 2 / 4 re-seeding + draws, 3 draws + a second LIVE environment of the same scenario
+    foreign = [0, 3, 2, 1, 4, 5, 3]
+    return [{"hashseed": hs, "loud": (i % 2 == 1), "warm": hist[i % len(hist)], "foreign": foreign[i % len(foreign)]} for i, hs in enumerate(seeds)]
 
 
 def episodes_of(lines: List[str]) -> List[List[str]]:
@@ -548,6 +562,8 @@ def check_case(name: str, variant: str, cfg: Dict, ops: List[Any], vs: List[Dict
         sig = {"kind": "cross-process-diff", **{k: desc[k] for k in ("part", "action", "field") if k in desc}}
         if (v.get("warm") or []) != (base_v.get("warm") or []):
             sig["history"] = "differs"   # the two interpreters also differ in what they ran BEFORE the case
+        if (v.get("foreign") or 0) != (base_v.get("foreign") or 0):
+            sig["foreign"] = "differs"   # … and in what else used the process-wide generators BETWEEN the environment's operations
         viol.append({"sig": sig, "what": f"{name}/{variant}: line {d} differs between {_vshort(base_v)} and {_vshort(v)}: {desc}; "
                                         f"{_excerpt(a, b)}",
                      "replay": {"scenario": name, "variant": variant, "cfg_yaml": _yaml(cfg), "ops": ops, "variants": [base_v, v], "warm": warm, "first_diff": d,
@@ -569,7 +585,8 @@ def _yaml(cfg: Dict) -> str:
 
 def _vshort(v: Dict) -> str:
     h = v.get("warm") or []
-    return f"{{hashseed {v.get('hashseed')}, {'loud' if v.get('loud') else 'quiet'}, history {h if h else 'none (fresh)'}}}"
+    return (f"{{hashseed {v.get('hashseed')}, {'loud' if v.get('loud') else 'quiet'}, history {h if h else 'none (fresh)'}, "
+            f"foreign generator use {v.get('foreign') or 0}}}")
 
 
 def _excerpt(a: str, b: str) -> str:
@@ -967,7 +984,14 @@ def run(ctx: Ctx):
         ctx.extract("NondetOutput", x_output.emit)
         ctx.extract("NondetLoops", x_loops.emit)
         ctx.extract("SharedState", x_shared.emit)
+        ctx.extract("OwnGeneratorState", x_own.emit)
         proved = ctx.prove(MODULES, exes=[EXE], leanchecker=ctx.thorough)
+    try:
+        own_key = x_own.wrapper_shape()["stateKey"]
+    except Exception as e:
+        own_key = f"<{type(e).__name__}>"
+    ctx.oblige("rig:own-state-key the rigs read / hand over the environment's generator state under the key the decorator uses", "correspondence",
+               own_key == xproc.OWN_STATE_KEY == sites.OWN_STATE_KEY, f"decorator: {own_key!r}, rigs: {xproc.OWN_STATE_KEY!r}, {sites.OWN_STATE_KEY!r}")
     mark("extract+prove")
     # -- the inventory, as seen by the extractor and by an independent textual count
     new_sites: List[Tuple] = []
